@@ -1,6 +1,7 @@
 package harness
 
 import (
+	"bytes"
 	"context"
 	"errors"
 	"fmt"
@@ -51,7 +52,11 @@ type decDisk struct {
 	eof      int64
 	readLog  [][2]int64 // offset, length of the first reads (fault-free pass)
 	logReads bool
+	short    int // > 0: a read returns at most 1 + (call number mod short) bytes
 }
+
+// decShort is picked up by the next decodeOnce (hapi)
+var decShort int
 
 func (d *decDisk) Read(p []byte) (int, error) {
 	i := d.calls
@@ -86,6 +91,9 @@ func (d *decDisk) Read(p []byte) (int, error) {
 	n := int64(len(p))
 	if n > end-d.pos {
 		n = end - d.pos
+	}
+	if d.short > 0 && n > int64(1+i%d.short) {
+		n = int64(1 + i%d.short)
 	}
 	if d.logReads && len(d.readLog) < 4096 {
 		d.readLog = append(d.readLog, [2]int64{d.pos, n})
@@ -176,7 +184,7 @@ type decOutcome struct {
 func decodeOnce(t *simrt.Tape, data []byte, group *decode.Group, force bool, planKind, planAt int, logReads bool) (*decOutcome, *decDisk) {
 	ctx, cancel := context.WithCancel(context.Background())
 	defer cancel()
-	disk := &decDisk{data: data, planKind: planKind, planAt: planAt, cancel: cancel, eof: -1, logReads: logReads}
+	disk := &decDisk{data: data, planKind: planKind, planAt: planAt, cancel: cancel, eof: -1, logReads: logReads, short: decShort}
 	out := &decOutcome{}
 	sim := simrt.New(t, simrt.PolSequential, 1<<30)
 	sim.WatchdogMs = 3000
@@ -457,6 +465,15 @@ func (*hdec) Run(rc *core.RunCtx) *core.RunResult {
 	if len(faults) > 300 {
 		faults = faults[:300]
 	}
+	if w, ok := nestWraps[p.group]; ok && len(orig) > 0 {
+		// the file stored as the only element of n enclosing containers: a legal
+		// document of the same format whose value tree is n levels deeper
+		n := []int{40, 130, 200, 300}[t.Intn(4)]
+		d := append([]byte(nil), bytes.Repeat([]byte(w[0]), n)...)
+		d = append(d, orig...)
+		d = append(d, bytes.Repeat([]byte(w[1]), n)...)
+		faults = append(faults, decFault{descr: fmt.Sprintf("wrapped in %d enclosing containers", n), kind: "nested_wrap", data: d})
+	}
 	res.Nontrivial = len(faults) > 0
 	res.Fingerprint = fnv64(0, []byte(key))
 	for _, f := range faults {
@@ -485,6 +502,14 @@ func (*hdec) Run(rc *core.RunCtx) *core.RunResult {
 	}
 	res.Sample = map[string]any{"case": what, "fault_family": family, "faults": len(faults)}
 	return res
+}
+
+// formats with a self-delimiting one-element container: opening and closing bytes
+var nestWraps = map[string][2]string{
+	"msgpack":  {"\x91", ""},
+	"cbor":     {"\x81", ""},
+	"bencode":  {"l", "e"},
+	"asn1_ber": {"\x30\x80", "\x00\x00"},
 }
 
 func condOf(p decPair, s corpus.Sample, faulted bool) string {
@@ -608,7 +633,8 @@ func checkOutcome(res *core.RunResult, out *decOutcome, data []byte, what string
 	}
 	nvals := 0
 	bad := false
-	_ = root.WalkPreOrder(func(v *decode.Value, _ *decode.Value, _ int, _ int) error {
+	linksOnly := false // the C03 violation is about names, numbering, links or a compound's own range: the leaf ranges can still be judged (C04)
+	_ = hdecWalk(root, false, func(v *decode.Value, _ *decode.Value, _ int, _ int) error {
 		nvals++
 		if nvals > 200000 {
 			return decode.ErrWalkStop
@@ -629,7 +655,7 @@ func checkOutcome(res *core.RunResult, out *decOutcome, data []byte, what string
 				// past the end and left a zero-length value there, which stretches the ranges
 				// of its ancestors; (B) a forced decode kept going past the end
 				leafOutside := false
-				_ = v.WalkRootPreOrder(func(w *decode.Value, _ *decode.Value, _ int, _ int) error {
+				_ = hdecWalk(v, true, func(w *decode.Value, _ *decode.Value, _ int, _ int) error {
 					if _, isC := w.V.(*decode.Compound); !isC && w.Range.Len > 0 && !isSynthetic(w) && (w != v || !v.IsRoot) {
 						if wl, ok := lenOf(w.RootReader); ok && w.RootReader == v.RootReader && w.Range.Start+w.Range.Len > wl {
 							leafOutside = true
@@ -665,30 +691,30 @@ func checkOutcome(res *core.RunResult, out *decOutcome, data []byte, what string
 		for i, ch := range c.Children {
 			if ch.Parent != v {
 				c03("parent-link", "%s: child %d (%s) has another parent", valuePath(v), i, ch.Name)
-				bad = true
+				bad, linksOnly = true, true
 				return decode.ErrWalkStop
 			}
 			if c.IsArray {
 				if ch.Index != i {
 					c03("array-index", "%s: element at position %d is numbered %d", valuePath(v), i, ch.Index)
-					bad = true
+					bad, linksOnly = true, true
 					return decode.ErrWalkStop
 				}
 			} else {
 				if names[ch.Name] {
 					c03("duplicate-name", "%s: two fields are named %q", valuePath(v), ch.Name)
-					bad = true
+					bad, linksOnly = true, true
 					return decode.ErrWalkStop
 				}
 				names[ch.Name] = true
 				if c.ByName[ch.Name] != ch {
 					c03("byname-link", "%s: lookup of field %q does not give the field", valuePath(v), ch.Name)
-					bad = true
+					bad, linksOnly = true, true
 					return decode.ErrWalkStop
 				}
 				if ch.Range.Start < prevStart {
 					c03("field-order", "%s: field %s starts at %d before its predecessor at %d", valuePath(v), ch.Name, ch.Range.Start, prevStart)
-					bad = true
+					bad, linksOnly = true, true
 					return decode.ErrWalkStop
 				}
 				prevStart = ch.Range.Start
@@ -698,14 +724,14 @@ func checkOutcome(res *core.RunResult, out *decOutcome, data []byte, what string
 			}
 			if ch.Range.Start < cr.Start || ch.Range.Start+ch.Range.Len > cr.Start+cr.Len {
 				c03("child-outside-parent", "%s (%d..%d) does not span its child %s (%d..%d)", valuePath(v), cr.Start, cr.Start+cr.Len, ch.Name, ch.Range.Start, ch.Range.Start+ch.Range.Len)
-				bad = true
+				bad, linksOnly = true, true
 				return decode.ErrWalkStop
 			}
 		}
 		return nil
 	})
 	res.Extra["values_walked"] += nvals
-	if bad {
+	if bad && !linksOnly {
 		return
 	}
 	// ---- C04 -------------------------------------------------------------
@@ -721,7 +747,7 @@ func checkOutcome(res *core.RunResult, out *decOutcome, data []byte, what string
 	var roots []*decode.Value
 	// (2) every compound that received gap fields is one gap-filling scope
 	var scopes []*decode.Value
-	_ = root.WalkPreOrder(func(v *decode.Value, _ *decode.Value, _ int, _ int) error {
+	_ = hdecWalk(root, false, func(v *decode.Value, _ *decode.Value, _ int, _ int) error {
 		c, isC := v.V.(*decode.Compound)
 		if !isC {
 			return nil
@@ -738,7 +764,7 @@ func checkOutcome(res *core.RunResult, out *decOutcome, data []byte, what string
 		return nil
 	})
 	leavesOf := func(b *decode.Value, fn func(v *decode.Value)) {
-		_ = b.WalkRootPreOrder(func(v *decode.Value, _ *decode.Value, _ int, _ int) error {
+		_ = hdecWalk(b, true, func(v *decode.Value, _ *decode.Value, _ int, _ int) error {
 			if _, isC := v.V.(*decode.Compound); isC {
 				return nil
 			}
@@ -761,11 +787,13 @@ func checkOutcome(res *core.RunResult, out *decOutcome, data []byte, what string
 			total = int64(len(data)) * 8
 		}
 		cover := make([]bool, total)
+		var leafRanges [][2]int64
 		leavesOf(b, func(v *decode.Value) {
 			s, e := v.Range.Start, v.Range.Start+v.Range.Len
 			if s < 0 || e > total {
 				return // C03's business
 			}
+			leafRanges = append(leafRanges, [2]int64{s, e})
 			for i := s; i < e; i++ {
 				cover[i] = true
 			}
@@ -777,7 +805,14 @@ func checkOutcome(res *core.RunResult, out *decOutcome, data []byte, what string
 					j++
 				}
 				key := formatOf(b) + ":" + cond
-				if j-i == 1 {
+				// known finding: the gap computation lets a run of fields take the one bit
+				// behind it when a field (also an empty one) starts right after that bit
+				sw := slackSwallowed(leafRanges, total)
+				explained := true
+				for k := i; k < j; k++ {
+					explained = explained && sw[k]
+				}
+				if explained {
 					key = "1-bit hole between leaf ranges"
 				}
 				c04("bit-not-covered", key, "buffer %s: bits %d..%d of %d lie in no field and no gap", valuePath(b), i, j, total)
@@ -829,6 +864,10 @@ func checkOutcome(res *core.RunResult, out *decOutcome, data []byte, what string
 			if err != nil {
 				continue
 			}
+			if al, ok := lenOf(bb.Actual); ok && al != n {
+				c04("gap-content", formatOf(p)+":"+cond, "gap %s (%d..%d): its content is %d bits long, its range %d", valuePath(g), gs, ge, al, n)
+				return
+			}
 			buf := make([]byte, n/8+2)
 			if _, err := bitio.ReadFull(cl, buf, n); err != nil && n > 0 {
 				c04("gap-unreadable", formatOf(p)+":"+cond, "gap %s (%d..%d): reading its bits failed: %v", valuePath(g), gs, ge, err)
@@ -841,4 +880,59 @@ func checkOutcome(res *core.RunResult, out *decOutcome, data []byte, what string
 			res.Extra["gaps_checked"]++
 		}
 	}
+}
+
+// hdecWalk walks a value tree pre-order without fq's own walker (what the
+// oracle sees must not depend on the code under test): every value below v,
+// or, with oneRoot, the values of v's own buffer (nested roots are skipped).
+// Returning decode.ErrWalkStop from fn ends the walk.
+func hdecWalk(v *decode.Value, oneRoot bool, fn func(v *decode.Value, rootV *decode.Value, depth int, rootDepth int) error) error {
+	var rec func(w *decode.Value, depth int) error
+	rec = func(w *decode.Value, depth int) error {
+		if oneRoot && w != v && w.IsRoot {
+			return nil
+		}
+		if err := fn(w, nil, depth, 0); err != nil {
+			return err
+		}
+		if c, ok := w.V.(*decode.Compound); ok {
+			for _, ch := range c.Children {
+				if err := rec(ch, depth+1); err != nil {
+					return err
+				}
+			}
+		}
+		return nil
+	}
+	return rec(v, 0)
+}
+
+// slackSwallowed mirrors the known finding in ranges.Gaps (ranges are merged when
+// the next one starts at most ONE bit after the end of the run so far): the bits
+// that are uncovered but taken for covered.
+func slackSwallowed(leaves [][2]int64, total int64) []bool {
+	ls := append([][2]int64(nil), leaves...)
+	sort.SliceStable(ls, func(i, j int) bool { return ls[i][0] < ls[j][0] })
+	sw := make([]bool, total)
+	for i := 0; i < len(ls); {
+		if ls[i][0] == ls[i][1] {
+			i++
+			continue
+		}
+		e := ls[i][1]
+		j := i + 1
+		for ; j < len(ls) && ls[j][0] <= e+1; j++ {
+			if ls[j][0] == e+1 && e >= 0 && e < total {
+				sw[e] = true
+			}
+			if ls[j][1] > e {
+				e = ls[j][1]
+			}
+			if ls[j][0] > e {
+				e = ls[j][0]
+			}
+		}
+		i = j
+	}
+	return sw
 }
